@@ -363,6 +363,48 @@ def scenarios():
                 steps.append(call('c2', pr))
         scen('failure-then-looks/stylesheet/%s' % holder, _w([s0, s1, s2], caches=['k0']), steps)
 
+    # 3c. option flip under failure: for every documented option / variable / snippet with a known visible effect
+    #     (the witness triples of the C20 profile: key, two values, abbreviation), a call under one value fails at
+    #     evenly spaced points (callee failure F5 in both placement modes and flavours, failing editor callback F3),
+    #     and the same abbreviation is then looked at under the OTHER value and under the same one. Targets state
+    #     that a call switches according to an option and switches back on success only.
+    from .gen_c20 import WITNESSES
+    import json as _json
+    for wi, (t, sec, key, v1, v2, abbr, extra) in enumerate(WITNESSES):
+        base = _json.loads(_json.dumps(extra))
+        if t == 'stylesheet':
+            base['type'] = t
+        cfgs = []
+        for i, v in enumerate((v1, v2)):
+            c = _json.loads(_json.dumps(base))
+            c.setdefault(sec, {})
+            c[sec] = dict(c[sec], **{key: v})
+            c.update({'id': 'c%d' % i, 'holder': 'dict' if (wi + i) % 3 else 'Config', 'peer': {'seed': 11 + i, 'style': 'textmate'}})
+            cfgs.append(c)
+        steps = [call('c0', abbr), call('c1', abbr)]
+        faults = []
+        for j in range(8):
+            f = {'kind': 'F5', 'mode': 'nth', 'frac': round((j + 0.5) / 8, 4), 'frac2': 0.0}
+            if j % 2:
+                f['exc'] = 'base'
+            faults.append(f)
+        for j in range(6):
+            f = {'kind': 'F5', 'mode': 'func', 'frac': round((j + 0.5) / 6, 4), 'frac2': (0.0, 0.999)[j % 2]}
+            if j % 3 == 2:
+                f['exc'] = 'base'
+            faults.append(f)
+        for j in range(4):
+            f = {'kind': 'F3', 'frac': round(j / 4, 4)}
+            if j % 2:
+                f['exc'] = ('TypeError', 'RuntimeError')[(j // 2) % 2]
+            faults.append(f)
+        for a, b in (('c0', 'c1'), ('c1', 'c0')):
+            for f in faults:
+                steps.append(dict(call(a, abbr), fault=dict(f)))
+                steps.append(dict(call(b, abbr), closing=True))
+                steps.append(dict(call(a, abbr), closing=True))
+        scen('option-flip-under-failure/%s/%s/%s' % (t, key, abbr), _w(cfgs), steps)
+
     # 4. unbounded growth with distinct inputs (census only, no references)
     scen('distinct-inputs/markup-html', _w([{'id': 'c0', 'holder': 'dict', 'options': {'bem.enabled': True, 'comment.enabled': True}}]),
          [{'op': 'soak_distinct', 'cfg': 'c0'}])
